@@ -32,8 +32,10 @@ InstDiffNs(a, b) ==
 \* ---- civil -> instant with the compatible strategy ----------------------------------
 Settled(z, c) == Classify(z, c)[1] # "m"
 Compat(z, c) ==
-  LET cl == Classify(z, c)  t == InstOfCivil(c, StrategyOffset("compatible", cl)) IN
-  IF InTsRange(t) THEN t ELSE <<>>
+  LET cl == Classify(z, c) IN
+  IF cl[1] = "m" THEN <<>>       \* three or more pre-images: outside the wording
+  ELSE LET t == InstOfCivil(c, StrategyOffset("compatible", cl)) IN
+       IF InTsRange(t) THEN t ELSE <<>>
 
 CalPart(sp) == [sp EXCEPT !.h = 0, !.mi = BZero, !.s = BZero, !.ms = BZero, !.us = BZero, !.ns = BZero]
 
@@ -83,5 +85,8 @@ DayCorr(z, a, ca, cb, b, sign) ==
       dc0 == IF (sign > 0 /\ todLt(cb, ca)) \/ (sign < 0 /\ todLt(ca, cb)) THEN 1 ELSE 0
       maxdc == IF sign > 0 THEN 2 ELSE 1
       S == {dc \in dc0..maxdc : IntermOk(z, a, ca, cb, b, sign, dc)}
-  IN  IF S = {} THEN -1 ELSE CHOOSE dc \in S : \A e \in S : dc <= e
+      least == CHOOSE dc \in S : \A e \in S : dc <= e
+      \* a candidate day whose civil datetime has three or more pre-images leaves the search unsettled
+      settledUpTo(k) == \A dc \in dc0..k : cb[1] - dc * sign = ca[1] \/ Settled(z, <<cb[1] - dc * sign, ca[2], ca[3]>>)
+  IN  IF S = {} THEN -1 ELSE IF settledUpTo(least) THEN least ELSE -1
 =======================================================================
